@@ -287,4 +287,11 @@ def r_enum(ctx):
     repo_idioms(ctx, "C07.R5", ('connection',))
 
 
-RULES = [("C07.R1", r1), ("C07.R2", r2), ("C07.R3", r3), ("C07.R4", r4), ("C07.R5", r_enum)]
+def r6(ctx):
+    """'success only after the peer accepted the whole message': for fragmented sends success is 'every fragment's datagram was
+    acked', so the receiver must not discard a partially reassembled message afterwards (shared obligation C05.R7)"""
+    from . import c05
+    c05.r7(ctx, RULE="C07.R6")
+
+
+RULES = [("C07.R1", r1), ("C07.R2", r2), ("C07.R3", r3), ("C07.R4", r4), ("C07.R5", r_enum), ("C07.R6", r6)]
